@@ -61,11 +61,14 @@ ALTS = {
     "stream_flags": ["off", "fin", "off+fin", "nolen", "nolen+off", "nolen+fin", "nolen+off+fin"],
     "ch_split": [f"{k}:{''.join(map(str, o))}:{'p' if p else 's'}" for k, cuts in (("2", (100,)), ("3", (50, 150)))
                  for o in itertools.permutations(range(len(cuts) + 1)) for p in (False, True)],
-    "retry": [True],
+    "retry": [True, 63, 64, 96, 300],          # Retry with a 24-byte token / with a token of that many bytes (Token Length needs 2 bytes from 64 on)
+    "token": [1, 63, 64, 300],                 # the first Initial already presents a token (from NEW_TOKEN) of that many bytes
     "zero_rtt": [True],
     "ncid": ["s8", "s8c8", "s20c4", "s1c1", "s1c1eq", "s8c8eq"],
     "v6": [True],
-    "ts": ["swap_pairs", "descending"],
+    # ns_close_<g>: nanosecond-resolution capture, consecutive datagrams g nanoseconds apart (within one microsecond; 1 and 130 ns
+    # are closer than a float can tell apart at this epoch)
+    "ts": ["swap_pairs", "descending", "ns_close_1", "ns_close_130", "ns_close_400"],
 }
 
 
@@ -94,6 +97,10 @@ def to_model(sc):
     for k in ("ccid_len", "scid_len", "odcid_len", "coalesce", "retry", "zero_rtt"):
         if k in sc:
             m[k] = sc[k]
+    if sc.get("retry") not in (None, True, False):
+        m["retry"], m["retry_token_len"] = True, sc["retry"]
+    if "token" in sc:
+        m["token"] = bytes((7 * i + 1) & 0xFF for i in range(sc["token"]))
     if "pn" in sc:
         m["pn_len"], m["pn_start"], m["pn_gap"] = sc["pn"]
     fm = frame_menu()
@@ -232,7 +239,11 @@ def restamp(pk, mode):
     if not mode:
         return
     ts = [p.ts for p in pk]
-    if mode == "descending":
+    if mode.startswith("ns_close_"):
+        from fractions import Fraction
+        g = int(mode.rsplit("_", 1)[1])
+        ts = [ts[0] + Fraction(789, 10 ** 9) + Fraction(i * g, 10 ** 9) for i in range(len(ts))]
+    elif mode == "descending":
         ts = ts[::-1]
     else:
         for i in range(0, len(ts) - 1, 2):
